@@ -134,6 +134,11 @@ def _alts(name, default, base_value):
         return [NaiveForecaster(strategy="drift"), Sentinel("est")]
     if b is None:
         return [Sentinel("none"), 3]
+    if isinstance(b, str):
+        lits = {"strategy": ["last", "mean", "drift"], "model": ["additive", "multiplicative"],
+                "aggfunc": ["mean", "median", "min", "max"], "method": ["mle", "pearsonr", "drift",
+                                                                         "mean", "median", "linear"]}
+        return [Sentinel("other")] + [v for v in lits.get(name, []) if v != b]
     return [Sentinel("other")]
 
 
@@ -389,6 +394,20 @@ def _ctor(res, name, c, base, case):
                     "reproduce the parameters", observed=bad)
     if o2.value is None:
         res.violate("%s:set_params:self" % name, "set_params does not return the estimator")
+    if name in RUNNABLE and not isinstance(alt, Sentinel):
+        # fit with this assignment (if the estimator accepts it): parameters stay as passed
+        est_f = call(lambda: c(**kw))
+        if est_f.ok:
+            before = _pdig(est_f.value)
+            f = call(_fit, est_f.value, _kind(c))
+            if f.ok:
+                after = _pdig(est_f.value)
+                changed = sorted(q for q in before if before[q][0] != after.get(q, (None,))[0] or
+                                 before[q][1] != after[q][1])
+                if changed:
+                    res.violate("%s:fit:params-changed:%s" % (name, ",".join(changed)),
+                                "fit changed constructor parameters",
+                                observed=dict(assignment={p: repr(alt)}, params=changed))
     cl = call(lambda: clone(est))
     if not cl.ok:
         res.violate("%s:clone:%s" % (name, p), "clone raised with a valid constructor "
@@ -656,6 +675,35 @@ def _nested(case, res):
         if stray:
             res.violate(name + ":combined:stray", "step name stored as a stray attribute",
                         observed=stray)
+    # one call that replaces a component by name AND sets a nested parameter of that same name
+    # (what a parameter grid over a multiplexer / pipeline does)
+    est = make()
+    for key, cur in sorted(est.get_params(deep=True).items()):
+        if "__" in key or not isinstance(cur, BaseEstimator) or key not in est.get_params(deep=False) \
+                and not any(isinstance(v, list) and any(isinstance(x, tuple) and x[0] == key for x in v)
+                            for v in est.get_params(deep=False).values()):
+            continue
+        repl = NaiveForecaster(strategy="last", sp=1)
+        est4 = make()
+        s4 = call(lambda: est4.set_params(**{key: repl, key + "__sp": 4}))
+        res.transitions += 1
+        if not s4.ok:
+            # only a violation if the two steps done one after the other work
+            est5 = make()
+            two = call(lambda: est5.set_params(**{key: NaiveForecaster()}).set_params(
+                **{key + "__sp": 4}))
+            if two.ok:
+                res.violate(name + ":replace+nested:raises", "set_params(name=new, name__p=v) raises "
+                            "although the two steps work one after the other", observed=s4.brief())
+            continue
+        res.nt((name, "replace+nested", key))
+        got = est4.get_params(deep=True)
+        if got.get(key) is not repl or repl.sp != 4 or got.get(key + "__sp") != 4:
+            res.violate(name + ":replace+nested", "nested parameter was not set on the component "
+                        "that was put in place by the same set_params call",
+                        expected=dict(component="the new one", sp=4),
+                        observed=dict(same_object=got.get(key) is repl, new_sp=repl.sp,
+                                      reported=got.get(key + "__sp")))
     # replace whole components by name
     est = make()
     for key, cur in sorted(est.get_params(deep=True).items()):
